@@ -13,6 +13,7 @@ Definition unrows (l : brows) : rows := map (fun r => (unbs (fst r), unbs (snd r
 Inductive bop :=
 | BAdd (name seq : bs) | BPolicy (p : Z) | BAppend (rs : brows) | BIdent (id : bs) (atright : bool)
 | BRename (m : list (bs * bs)) | BRenameLit (old new : bs) | BCleanNames | BTrimAuto (curid : Z)
+| BTrim (m : list (bs * bs)) (size : Z)
 | BSort | BShuffle (draws : list Z) | BFilterLength (mn mx : Z) | BClear | BClone
 | BSetChar (i j : Z) (c : byte) | BSample (nb : Z) (perm : list Z).
 
@@ -26,6 +27,7 @@ Definition to_cop (b : bop) : cop :=
   | BRenameLit o n => OpRenameLit (unbs o) (unbs n)
   | BCleanNames => OpCleanNames
   | BTrimAuto c => OpTrimAuto (Z.to_N c)
+  | BTrim m size => OpTrim (map (fun kv => (unbs (fst kv), unbs (snd kv))) m) size
   | BSort => OpSort
   | BShuffle d => OpShuffle (map Z.to_nat d)
   | BFilterLength a b => OpFilterLength a b
@@ -83,7 +85,7 @@ Definition model_ok (c : case) : bool := run_model (c_universe c) (init_state c)
 Definition canon (st : cstate) : cstate := set_objs st (c_objs st) (reindex (c_objs st)).
 
 Definition is_rename (b : bop) : bool :=
-  match b with BIdent _ _ | BRename _ | BRenameLit _ _ | BCleanNames | BTrimAuto _ => true | _ => false end.
+  match b with BIdent _ _ | BRename _ | BRenameLit _ _ | BCleanNames | BTrimAuto _ | BTrim _ _ => true | _ => false end.
 
 Fixpoint run_spec (universe : list bs) (st : cstate) (renamed : bool) (steps : list (bop * obs)) : bool :=
   match steps with
